@@ -123,7 +123,7 @@ class Consistent(Suite):
 
 
 if __name__ == "__main__":
-    main("C07", [ParFront(), Consistent()],
+    main("C07", [ParFront(), Consistent()], gen_targets=['graph', 'step6'],
          level_note="igraph's SCC order is taken as given (the merge loop model is run on the library's own parcons partition); the set of optimal "
                     "consensuses is enumerated through the verified [assigns]/[opt] for universes <= 5 (thorough 6)",
          rule="parfront: the F7 witness, ALL pairs of complete rankings with ties over 3 elements and sampled pairs / triples over 4 (tie-heavy costs), chain datasets with a few contradicting rankings (cascading merges back to the first group), layered and "
